@@ -1,7 +1,10 @@
 // Memory-bounded priority queue with backpressure
 // Matches C++ AGC's CBoundedPQueue behavior
 
+#[cfg(ragc_verif_shuttle)]
+use shuttle::sync::{Arc, Condvar, Mutex};
 use std::collections::BinaryHeap;
+#[cfg(not(ragc_verif_shuttle))]
 use std::sync::{Arc, Condvar, Mutex};
 
 /// A priority queue bounded by total bytes (not item count)
@@ -99,11 +102,35 @@ impl<T: Ord> MemoryBoundedQueue<T> {
 
         // Wait while queue would be too full
         while inner.current_size + size_bytes > self.capacity_bytes && !inner.closed {
+            #[cfg(ragc_verif)]
+            crate::verif_hooks::queue_event(
+                "push-wait",
+                size_bytes,
+                inner.items.len(),
+                inner.current_size,
+                inner.closed,
+            );
             inner = self.not_full.wait(inner).unwrap();
+            #[cfg(ragc_verif)]
+            crate::verif_hooks::queue_event(
+                "push-wake",
+                size_bytes,
+                inner.items.len(),
+                inner.current_size,
+                inner.closed,
+            );
         }
 
         // Check if closed while we were waiting
         if inner.closed {
+            #[cfg(ragc_verif)]
+            crate::verif_hooks::queue_event(
+                "push-refused",
+                size_bytes,
+                inner.items.len(),
+                inner.current_size,
+                inner.closed,
+            );
             return Err(PushError::Closed);
         }
 
@@ -113,6 +140,14 @@ impl<T: Ord> MemoryBoundedQueue<T> {
             size: size_bytes,
         });
         inner.current_size += size_bytes;
+        #[cfg(ragc_verif)]
+        crate::verif_hooks::queue_event(
+            "admit",
+            size_bytes,
+            inner.items.len(),
+            inner.current_size,
+            inner.closed,
+        );
 
         // Signal that queue is not empty
         self.not_empty.notify_one();
@@ -127,10 +162,26 @@ impl<T: Ord> MemoryBoundedQueue<T> {
         let mut inner = self.inner.lock().unwrap();
 
         if inner.closed {
+            #[cfg(ragc_verif)]
+            crate::verif_hooks::queue_event(
+                "push-refused",
+                size_bytes,
+                inner.items.len(),
+                inner.current_size,
+                inner.closed,
+            );
             return Err(TryPushError::Closed);
         }
 
         if inner.current_size + size_bytes > self.capacity_bytes {
+            #[cfg(ragc_verif)]
+            crate::verif_hooks::queue_event(
+                "push-wouldblock",
+                size_bytes,
+                inner.items.len(),
+                inner.current_size,
+                inner.closed,
+            );
             return Err(TryPushError::WouldBlock);
         }
 
@@ -140,6 +191,14 @@ impl<T: Ord> MemoryBoundedQueue<T> {
             size: size_bytes,
         });
         inner.current_size += size_bytes;
+        #[cfg(ragc_verif)]
+        crate::verif_hooks::queue_event(
+            "admit",
+            size_bytes,
+            inner.items.len(),
+            inner.current_size,
+            inner.closed,
+        );
 
         // Signal that queue is not empty
         self.not_empty.notify_one();
@@ -168,17 +227,49 @@ impl<T: Ord> MemoryBoundedQueue<T> {
 
         // Wait while queue is empty and not closed
         while inner.items.is_empty() && !inner.closed {
+            #[cfg(ragc_verif)]
+            crate::verif_hooks::queue_event(
+                "pull-wait",
+                0,
+                inner.items.len(),
+                inner.current_size,
+                inner.closed,
+            );
             inner = self.not_empty.wait(inner).unwrap();
+            #[cfg(ragc_verif)]
+            crate::verif_hooks::queue_event(
+                "pull-wake",
+                0,
+                inner.items.len(),
+                inner.current_size,
+                inner.closed,
+            );
         }
 
         // If closed and empty, return None
         if inner.items.is_empty() {
+            #[cfg(ragc_verif)]
+            crate::verif_hooks::queue_event(
+                "pull-none",
+                0,
+                inner.items.len(),
+                inner.current_size,
+                inner.closed,
+            );
             return None;
         }
 
         // Remove highest-priority item (BinaryHeap::pop returns max element)
         let priority_item = inner.items.pop().unwrap();
         inner.current_size -= priority_item.size;
+        #[cfg(ragc_verif)]
+        crate::verif_hooks::queue_event(
+            "take",
+            priority_item.size,
+            inner.items.len(),
+            inner.current_size,
+            inner.closed,
+        );
 
         // Signal that queue has space
         self.not_full.notify_one();
@@ -193,12 +284,28 @@ impl<T: Ord> MemoryBoundedQueue<T> {
         let mut inner = self.inner.lock().unwrap();
 
         if inner.items.is_empty() {
+            #[cfg(ragc_verif)]
+            crate::verif_hooks::queue_event(
+                "try-pull-none",
+                0,
+                inner.items.len(),
+                inner.current_size,
+                inner.closed,
+            );
             return None;
         }
 
         // Remove highest-priority item (BinaryHeap::pop returns max element)
         let priority_item = inner.items.pop().unwrap();
         inner.current_size -= priority_item.size;
+        #[cfg(ragc_verif)]
+        crate::verif_hooks::queue_event(
+            "take",
+            priority_item.size,
+            inner.items.len(),
+            inner.current_size,
+            inner.closed,
+        );
 
         // Signal that queue has space
         self.not_full.notify_one();
@@ -215,6 +322,14 @@ impl<T: Ord> MemoryBoundedQueue<T> {
     pub fn close(&self) {
         let mut inner = self.inner.lock().unwrap();
         inner.closed = true;
+        #[cfg(ragc_verif)]
+        crate::verif_hooks::queue_event(
+            "close",
+            0,
+            inner.items.len(),
+            inner.current_size,
+            inner.closed,
+        );
 
         // Wake up all waiting threads
         self.not_full.notify_all();
